@@ -111,8 +111,15 @@ func (ct *CSVTable) emitRow(w io.Writer, columnCount int, cells []tabular.Cell) 
 			return err
 		}
 	}
-	if _, err := fmt.Fprint(w, ct.csvEscape(cells[i].String())); err != nil {
-		return err
+	if max > 0 {
+		if _, err := fmt.Fprint(w, ct.csvEscape(cells[i].String())); err != nil {
+			return err
+		}
+	} else {
+		// a row with no cells at all: every field is one of the missing ones
+		if _, err := fmt.Fprint(w, "\"\""); err != nil {
+			return err
+		}
 	}
 	i++
 	for ; i < columnCount; i++ {
